@@ -49,7 +49,7 @@ CHECKS = {
     "C02": {"external": "vcheck_c02"},
     "C19": {"external": "vcheck_c19"},
     "C14": dict(TRACER_BASE, **{
-        "scenarios": [{"name": "c14"}],
+        "scenarios": [{"name": "c14", "share": 0.85}, {"name": "c14-sequence", "share": 0.15}],
         "budget": {"quick": {"seconds": 30, "workers": 16}, "thorough": {"seconds": 900, "workers": 16}},
         "rule": "each evaluation drives one body through TracingRoundTripper or TracingHandler (client response body, client request body, server request body, server response writer) with a scripted inner transport/handler: envelope sequence (flags incl. end-stream encodings 2/3/0x80/0x81 and random bytes, lengths 0..70 KiB, end-stream payload compressed or not, garbage), content type of each protocol, encoding header, seeded partition into Read/Write calls (simio chunking, boundary-aligned and 1-byte), cut at any byte, EOF / EOF-with-data / I/O error / error-with-data / early Close / failing short Write; a reference parser over (byte string, cut point) predicts the event list; transparency compares every (n, err, bytes) with the inner stream. Distinct = hash of case shape + chunk sizes; non-trivial = more than one chunk or a cut.",
         "expect_probes": ["truncate-at-byte", "end:close-early", "end:error-with-data", "end:eof-with-data"],
